@@ -87,7 +87,23 @@ def E1_lmpdat_writer_reader(repo, clause):
                 continue
             if guard_eq(w, c, style):
                 lp = [x for x in w.ancestors(c) if isinstance(x, ast.For)]
-                return c, a.elts, lp[0] if lp else None
+                # flatten: a `%s` slot filled with a local that is itself `"..." % (more columns)` contributes those columns; a plain local copy of a column
+                # (atom_type = self.atom_types[i]) is looked through
+                elts = []
+                for e_ in a.elts:
+                    v_ = e_
+                    if isinstance(e_, ast.Name):
+                        try:
+                            v_ = expand(w, e_)
+                        except Exception:
+                            v_ = e_
+                    if isinstance(v_, ast.BinOp) and isinstance(v_.op, ast.Mod) and isinstance(v_.left, ast.Constant) and isinstance(v_.left.value, str):
+                        inner = v_.right.elts if isinstance(v_.right, ast.Tuple) else [v_.right]
+                        for i_ in inner:
+                            elts.append(_look_through(w, i_))
+                    else:
+                        elts.append(_look_through(w, e_))
+                return c, elts, lp[0] if lp else None
         return None, None, None
 
     def reader_cols(style):
@@ -165,7 +181,9 @@ def E1_lmpdat_writer_reader(repo, clause):
                           "Atoms/%s: %s written in column %s with offset %+d, read from column %s with offset %+d%s" % (
                               style, attr, wcol[0][0] if wcol else "?", wcol[0][2] if wcol else 0, rcol[0] if rcol else "?", rcol[2] if rcol else 0,
                               "" if not dd else " -- the written value `%s` is shifted by a quantity computed from the data itself; the reader subtracts the constant 1, so the column does not read back unless that quantity happens to be 0" % dd),
-                          slot="atoms-%s:%s" % (style, attr), positive=bool(dd)))
+                          slot="atoms-%s:%s" % (style, attr),
+                          # column found on both sides and the two constant offsets do not cancel: a contradiction between writer and reader whatever their shape
+                          positive="robust" if (not dd and len(wcol) == 1 and rcol is not None and rcol[0] == wcol[0][0] and rcol[1] is None and wcol[0][2] + rcol[2] != 0) else bool(dd)))
         # coordinates: x, y, z loop targets of enumerate(self.positions), three consecutive columns
         xyz = None
         if lp is not None and isinstance(lp.iter, ast.Call) and call_name(lp.iter) == "enumerate" and is_self_attr(lp.iter.args[0], "positions") \
@@ -1038,6 +1056,51 @@ def E2_cif_tags(repo, clause):
                                   "the tags of a loop go through `%s`: a plain set forgets the order of the columns in the file, so extra per-atom / per-term columns come back in hash or "
                                   "alphabetical order and the re-written file differs (the ordered difference OrderedSet(keys) - handled keeps it)" % ast.unparse(wrap)[:50],
                                   slot="extra-columns-order", positive="robust"))
+    # tag presence: the CIF library reports the keys of a block in LOWER case and its has_key() folds case; a hand-written membership test against block.keys()
+    # (`in`, issubset, set difference) is case-sensitive, so a tag spelled with capitals (_symmetry_space_group_name_H-M) is never found
+    def _mixed_literals(fn_, e_):
+        try:
+            v_ = expand(fn_, e_)
+        except Exception:
+            v_ = e_
+        return sorted({x.value for x in ast.walk(v_) if isinstance(x, ast.Constant) and isinstance(x.value, str) and x.value.startswith("_") and x.value != x.value.lower()})
+    nested_ = [f2 for f2 in repo.all_fns() if f2.outer is r]
+    for f_ in [r] + nested_:
+        for kc in [c_ for c_ in calls_in(f_) if call_name(c_) == "keys" and isinstance(c_.func, ast.Attribute) and isinstance(c_.func.value, ast.Name) and not c_.args]:
+            if isinstance(f_.parents.get(kc), ast.Call) and call_name(f_.parents.get(kc)) == "OrderedSet":
+                continue
+            holder = f_.parents.get(kc)
+            # climb to the expression the key view takes part in
+            other = None
+            if isinstance(holder, ast.Compare) and len(holder.ops) == 1 and isinstance(holder.ops[0], (ast.In, ast.NotIn)) and holder.comparators[0] is kc:
+                other = holder.left
+            elif isinstance(holder, ast.Call) and call_name(holder) in ("issubset", "issuperset", "isdisjoint", "difference", "intersection") and isinstance(holder.func, ast.Attribute):
+                other = holder.func.value if any(a_ is kc for a_ in holder.args) else (holder.args[0] if holder.args else None)
+            elif isinstance(holder, ast.Call) and call_name(holder) in ("set", "frozenset", "list") and isinstance(f_.parents.get(holder), (ast.BinOp, ast.Compare, ast.Call)):
+                hp = f_.parents.get(holder)
+                if isinstance(hp, ast.BinOp):
+                    other = hp.left if hp.right is holder else hp.right
+                elif isinstance(hp, ast.Compare):
+                    other = hp.left if hp.comparators[0] is holder else hp.comparators[0]
+                elif isinstance(hp, ast.Call) and isinstance(hp.func, ast.Attribute):
+                    other = hp.func.value if any(a_ is holder for a_ in hp.args) else (hp.args[0] if hp.args else None)
+            if other is None:
+                continue
+            tags_direct = _mixed_literals(f_, other)
+            via_param = sorted({x.id for x in ast.walk(other) if isinstance(x, ast.Name) and x.id in f_.params})
+            found = [(f_, kc, t_) for t_ in tags_direct]
+            if via_param and f_ is not r:
+                for cs in [c_ for c_ in calls_in(r) if isinstance(c_.func, ast.Name) and c_.func.id == f_.name]:
+                    for pn in via_param:
+                        a_ = get_arg(cs, f_.params, pn)
+                        if a_ is not None:
+                            found += [(r, cs, t_) for t_ in _mixed_literals(r, a_)]
+            for fn2, node2, tag2 in found:
+                obs.append(Ob("E2", clause, fn2, node2, False,
+                              "the presence of `%s` is decided by a case-sensitive membership test against %s (`%s`), but the CIF library reports keys in lower case (its has_key() folds "
+                              "case): this tag is never found, so %s" % (tag2, ast.unparse(kc), ast.unparse(holder)[:50],
+                                                                       "a declared space group other than P1 is silently read as P1" if "space_group" in tag2 else "the data under it is ignored"),
+                              slot="tag-presence-case:%s" % tag2, positive="robust"))
     mixed = sorted({t for t in handled_lists if t != t.lower()})
     obs.append(Ob("E2", clause, r, r.node, bool(handled_lists) and not mixed,
                   "tags removed from the loop's key list are spelled in lower case, as the CIF library reports keys (%d tags; mixed-case: %s)" % (len(set(handled_lists)), mixed or "none"),
@@ -1989,6 +2052,18 @@ def E_enumeration_shape(repo, clause):
                                                                                           ": a bond whose end atom has exactly ONE other neighbour (ether oxygen, H-O-O-H, chain ends of rings) has torsions, and they are skipped"),
                                   slot="dihedral-skip", positive=skips_nonempty))
     return obs
+
+
+def _look_through(fn, e):
+    """e with the plain local copies of a column it mentions replaced by their values (atom_type = self.atom_types[i]; `atom_type + 1` -> `self.atom_types[i] + 1`);
+    loop variables, starred arguments and anything expand cannot resolve stay as they are"""
+    if isinstance(e, ast.Starred) or not any(isinstance(x, ast.Name) for x in ast.walk(e)):
+        return e
+    try:
+        v = expand(fn, e)
+    except Exception:
+        return e
+    return e if isinstance(v, (ast.Tuple, ast.List)) and not isinstance(e, (ast.Tuple, ast.List)) else v
 
 
 def _enum_start(lp):
